@@ -438,11 +438,18 @@ func extSource(c *spec.Case, e *spec.Ext) string {
 			fmt.Fprintf(&sb, "func Mk_%d(h uint32) %s { return %s }\n\n", int(t.ID), t.Basic, basicMk(t.Basic, "h"))
 		}
 	}
+	hasMethod := false
 	for i := range c.Provs {
 		p := &c.Provs[i]
 		if p.Form == "ext" && p.Pkg == e.Key {
 			sb.WriteString(providerFunc(c, p, e.Key))
+			if p.Method {
+				hasMethod = true
+			}
 		}
+	}
+	if hasMethod {
+		sb.WriteString("// FactoryT's methods are used as providers through method values of Factory.\ntype FactoryT struct{}\n\nvar Factory FactoryT\n\n")
 	}
 	sb.WriteString("var _ = vrt.Mix\n")
 	return sb.String()
@@ -565,6 +572,9 @@ func providerBody(c *spec.Case, p *spec.Prov, from string) string {
 
 func providerFunc(c *spec.Case, p *spec.Prov, from string) string {
 	ps, rs := providerSig(c, p, from)
+	if p.Method {
+		return fmt.Sprintf("func (FactoryT) %s(%s) %s {\n%s}\n\n", p.Name, ps, rs, providerBody(c, p, from))
+	}
 	return fmt.Sprintf("func %s(%s) %s {\n%s}\n\n", p.Name, ps, rs, providerBody(c, p, from))
 }
 
@@ -596,6 +606,9 @@ func provRef(c *spec.Case, p *spec.Prov) string {
 		n := e.Name
 		if e.Alias != "" {
 			n = e.Alias
+		}
+		if p.Method {
+			return n + ".Factory." + p.Name
 		}
 		return n + "." + p.Name
 	}
